@@ -299,38 +299,46 @@ impl State {
             self.only_in_debug.currently_running_node.take();
             // t.only_in_debug.expert_nodes_created_by_current_node <- []);
         }
-        tracing::info_span!("set_during_stabilisation").in_scope(|| {
-            let mut stack = self.set_during_stabilisation.borrow_mut();
-            while let Some(var) = stack.pop() {
+        loop {
+            tracing::info_span!("set_during_stabilisation").in_scope(|| loop {
+                // (not kept borrowed: replacing a value drops the old one, which is user code)
+                let next = self.set_during_stabilisation.borrow_mut().pop();
+                let Some(var) = next else { break };
                 let Some(var) = var.upgrade() else { continue };
                 tracing::debug!("set_during_stabilisation: found var with {:?}", var.id());
                 var.set_var_stabilise_end();
-            }
-        });
-        // we may have the same var appear in the set_during_stabilisation stack,
-        // and also the dead_vars stack. That's ok! Being in dead_vars means it will
-        // never be set again, as the public::Var is gone & nobody can set it from
-        // outside any more. So killing the Var's internal reference to the watch Node
-        // will not be a problem, because the last time that was needed was back a few
-        // lines ago when we ran var.set_var_stabilise_end().
-        tracing::info_span!("dead_vars").in_scope(|| {
-            // This code handles Var<Var> by double buffering
-            let mut alt = self.dead_vars_alt.borrow_mut();
-            loop {
-                let mut stack = self.dead_vars.borrow_mut();
-                if stack.is_empty() {
-                    break;
+            });
+            // we may have the same var appear in the set_during_stabilisation stack,
+            // and also the dead_vars stack. That's ok! Being in dead_vars means it will
+            // never be set again, as the public::Var is gone & nobody can set it from
+            // outside any more. So killing the Var's internal reference to the watch Node
+            // will not be a problem, because the last time that was needed was back a few
+            // lines ago when we ran var.set_var_stabilise_end().
+            tracing::info_span!("dead_vars").in_scope(|| {
+                // This code handles Var<Var> by double buffering
+                let mut alt = self.dead_vars_alt.borrow_mut();
+                loop {
+                    let mut stack = self.dead_vars.borrow_mut();
+                    if stack.is_empty() {
+                        break;
+                    }
+                    // Subtle: don't just swap the RefMuts! Swap the vecs.
+                    std::mem::swap(&mut *stack, &mut *alt);
+                    drop(stack);
+                    for var in alt.drain(..) {
+                        let Some(var) = var.upgrade() else { continue };
+                        tracing::debug!("dead_vars: found var with {:?}", var.id());
+                        var.break_rc_cycle();
+                    }
                 }
-                // Subtle: don't just swap the RefMuts! Swap the vecs.
-                std::mem::swap(&mut *stack, &mut *alt);
-                drop(stack);
-                for var in alt.drain(..) {
-                    let Some(var) = var.upgrade() else { continue };
-                    tracing::debug!("dead_vars: found var with {:?}", var.id());
-                    var.break_rc_cycle();
-                }
+            });
+            // Dropping a dead variable's value is user code too, and may have written other
+            // variables; we are still stabilising, so those writes were deferred: commit them as
+            // well instead of leaving them to the end of the next stabilisation.
+            if self.set_during_stabilisation.borrow().is_empty() {
+                break;
             }
-        });
+        }
         tracing::info_span!("handle_after_stabilisation").in_scope(|| {
             let mut stack = self.handle_after_stabilisation.borrow_mut();
             for node in stack.drain(..).filter_map(|node| node.upgrade()) {
